@@ -272,6 +272,8 @@ structure Case where
   c : Cid
   send : Bool
   v : Val
+  /-- the case's channel is nil: `Select`/`TrySelect` skip it everywhere (registration, probing, tie-break) -/
+  isNil : Bool
 deriving DecidableEq, Repr, Hashable
 
 /-- one Go-level operation of a thread's program -/
@@ -351,7 +353,7 @@ def State.setChan (s : State) (c : Cid) (ch : Chan) : State := { s with chans :=
 /-- `selectSendFirst`: channel indices are allocation addresses in increasing order (the harness
     allocates the channels so) -/
 def minChan (cases : List Case) (send : Bool) : Option Cid :=
-  cases.foldl (fun m cs => if cs.send = send then
+  cases.foldl (fun m cs => if cs.send = send ∧ cs.isNil = false then
       (match m with | none => some cs.c | some x => some (if cs.c < x then cs.c else x)) else m) none
 
 def selectSendFirst (cases : List Case) : Bool :=
@@ -361,7 +363,10 @@ def selectSendFirst (cases : List Case) : Bool :=
   | some s, some r => decide (s < r)
 
 /-- `selectSendChans[c]` -/
-def isSendChan (cases : List Case) (c : Cid) : Bool := cases.any fun cs => cs.send && cs.c == c
+def isSendChan (cases : List Case) (c : Cid) : Bool := cases.any fun cs => cs.send && !cs.isNil && cs.c == c
+
+/-- `op.C != nil` -/
+def Case.live (cs : Case) : Bool := !cs.isNil
 
 /-- first case with index ≥ `i` (counting from `base`) satisfying `want` -/
 def nextCase (want : Case → Bool) : List Case → Nat → Nat → Option (Nat × Case)
@@ -399,14 +404,15 @@ def startOps (th : Thread) : List Op → Thread
   | .select cases true :: rest =>
     let sl : Sel := { cases := cases, blocking := true, sendFirst := selectSendFirst cases, pass := 0, idx := 0, result := none }
     let th := { th with ops := rest, rv := List.replicate cases.length 0, sem := false, sel := some sl }
-    match cases with
-    | [] => { th with pc := .selLock }                      -- trySelect finds nothing; selOp.wait()
-    | cs :: _ => { th with pc := .at (.prepLock cs.c cs.send) }
+    match nextCase Case.live cases 0 0 with
+    | none => { th with pc := .selLock }                    -- nothing to register, trySelect finds nothing; selOp.wait()
+    | some (j, cs) => { th with sel := some { sl with idx := j }, pc := .at (.prepLock cs.c cs.send) }
   | .select cases false :: rest =>
     let sl : Sel := { cases := cases, blocking := false, sendFirst := false, pass := 0, idx := 0, result := none }
-    match cases with
-    | [] => startOps { th with res := th.res ++ [.dflt []] } rest
-    | cs :: _ => { th with ops := rest, rv := List.replicate cases.length 0, sel := some sl, pc := .at (pollPoint sl 0 cs) }
+    match nextCase Case.live cases 0 0 with
+    | none => startOps { th with res := th.res ++ [.dflt []] } rest
+    | some (j, cs) =>
+      { th with ops := rest, rv := List.replicate cases.length 0, sel := some { sl with idx := j }, pc := .at (pollPoint sl j cs) }
 
 /-- the running operation returned `r`-independent result `res`: record it, go on -/
 def finishOp (th : Thread) (res : Res) : Thread :=
@@ -415,16 +421,16 @@ def finishOp (th : Thread) (res : Res) : Thread :=
 /-- continue `trySelect` / `TrySelect` at case index `i` of pass `pass` -/
 def pollFrom (th : Thread) (sl : Sel) (pass i : Nat) : Thread :=
   if sl.blocking then
-    match nextCase (fun cs => cs.send == passSend sl.sendFirst pass) sl.cases 0 i with
+    match nextCase (fun cs => cs.live && cs.send == passSend sl.sendFirst pass) sl.cases 0 i with
     | some (j, cs) => { th with sel := some { sl with pass := pass, idx := j }, pc := .at (pollPoint sl j cs) }
     | none =>
       if pass = 0 then
-        match nextCase (fun cs => cs.send == passSend sl.sendFirst 1) sl.cases 0 0 with
+        match nextCase (fun cs => cs.live && cs.send == passSend sl.sendFirst 1) sl.cases 0 0 with
         | some (j, cs) => { th with sel := some { sl with pass := 1, idx := j }, pc := .at (pollPoint sl j cs) }
         | none => { th with sel := some { sl with pass := 0, idx := 0 }, pc := .selLock }
       else { th with sel := some { sl with pass := 0, idx := 0 }, pc := .selLock }
   else
-    match nextCase (fun _ => true) sl.cases 0 i with
+    match nextCase Case.live sl.cases 0 i with
     | some (j, cs) => { th with sel := some { sl with idx := j }, pc := .at (pollPoint sl j cs) }
     | none => finishOp th (selRes th sl)
 
@@ -432,9 +438,9 @@ def pollFrom (th : Thread) (sl : Sel) (pass i : Nat) : Thread :=
 def commitSel (th : Thread) (sl : Sel) (recvOK : Bool) : Thread :=
   let sl := { sl with result := some (sl.idx, recvOK) }
   if sl.blocking then
-    match sl.cases with
-    | cs :: _ => { th with sel := some { sl with idx := 0 }, pc := .at (.endLock cs.c cs.send) }
-    | [] => finishOp th (selRes th sl)
+    match nextCase Case.live sl.cases 0 0 with
+    | some (j, cs) => { th with sel := some { sl with idx := j }, pc := .at (.endLock cs.c cs.send) }
+    | none => finishOp th (selRes th sl)
   else finishOp th (selRes th sl)
 
 /-- a channel-level function returned `r` to thread `th` -/
@@ -449,14 +455,14 @@ def onRet (th : Thread) (r : Ret) : Thread :=
   | some sl =>
     match r with
     | .prep =>
-      match sl.cases[sl.idx + 1]? with
-      | some cs => { th with sel := some { sl with idx := sl.idx + 1 }, pc := .at (.prepLock cs.c cs.send) }
+      match nextCase Case.live sl.cases 0 (sl.idx + 1) with
+      | some (j, cs) => { th with sel := some { sl with idx := j }, pc := .at (.prepLock cs.c cs.send) }
       | none => pollFrom th sl 0 0
     | .trySend ok => if ok then commitSel th sl false else pollFrom th sl sl.pass (sl.idx + 1)
     | .tryRecv recvOK tryOK => if tryOK then commitSel th sl recvOK else pollFrom th sl sl.pass (sl.idx + 1)
     | .ended =>
-      match sl.cases[sl.idx + 1]? with
-      | some cs => { th with sel := some { sl with idx := sl.idx + 1 }, pc := .at (.endLock cs.c cs.send) }
+      match nextCase Case.live sl.cases 0 (sl.idx + 1) with
+      | some (j, cs) => { th with sel := some { sl with idx := j }, pc := .at (.endLock cs.c cs.send) }
       | none => finishOp th (selRes th sl)
     | _ => finishOp th .panic      -- unreachable
 
